@@ -47,6 +47,14 @@ def validate (s : St) (nVal : Nat) : Option St :=
   if nVal = 0 then none
   else some { s.emit .noGradExit with gradOn := prev }
 
+/-- `Trainer.test` : eval mode, a fresh `no_grad()` block around the whole loop (zero batches are fine here) -/
+def test (s : St) (nTest : Nat) : St :=
+  let s := { s.emit .setEval with training := false }
+  let prev := s.gradOn
+  let s := { s.emit .noGradEnter with gradOn := false }
+  let s := (List.range nTest).foldl (fun s _ => s.emit (.forward s.training s.gradOn)) s
+  { s.emit .noGradExit with gradOn := prev }
+
 structure Cfg where
   epochs : Nat
   nTrain : Nat
